@@ -874,7 +874,7 @@ def book_models(run, negs=("edns", "cache", "recompute", "optttl"), parts=("book
         run.negative_control("MC_ObjectImpl", "MC_ObjectImpl_neg_cursor.cfg")
     if "object" in parts:
         run.model("MC_Object", "MC_Object.cfg" if quick(run) else "MC_Object_thorough.cfg", timeout=7200)
-        for neg in ("cursor", "rdlength", "edns", "optkept", "optinsert", "renameflag"):
+        for neg in ("cursor", "rdlength", "edns", "optkept", "optinsert", "renameflag", "cache"):
             run.negative_control("MC_Object", "MC_Object_neg_%s.cfg" % neg)
 
 
